@@ -480,11 +480,18 @@ def gen_args(rng, qual, sig):
                 "planet_stars_in_line"):
         a0, d0 = rng.uniform(20, 300), rng.uniform(-50, 50)
         t0 = rng.uniform(-0.8, 0.8)
-        n = 5
-        ra1 = [Angle(a0 + 0.8 * (i - 2 - t0)) for i in range(n)]
-        de1 = [Angle(d0 + 0.2 * (i - 2)) for i in range(n)]
-        ra2 = [Angle(a0 + 0.1 * (i - 2 - t0)) for i in range(n)]
-        de2 = [Angle(d0 - 1.0 + 0.05 * i) for i in range(n)]
+        # odd and even numbers of entries (the last one of an even table is
+        # documented to be dropped), as lists or as tuples
+        n = rng.choice((5, 5, 3, 4, 6, 7))
+        if base == "planet_stars_in_line":
+            n = rng.choice((5, 5, 6, 7))     # the two stars are placed for
+            #                                  a table of at least five
+        c = (n if n % 2 else n - 1) // 2
+        box = rng.choice((list, list, tuple))
+        ra1 = box(Angle(a0 + 0.8 * (i - c - t0)) for i in range(n))
+        de1 = box(Angle(d0 + 0.2 * (i - c)) for i in range(n))
+        ra2 = box(Angle(a0 + 0.1 * (i - c - t0)) for i in range(n))
+        de2 = box(Angle(d0 - 1.0 + 0.05 * i) for i in range(n))
         if base == "planetary_conjunction":
             return [ra1, de1, ra2, de2]
         if base == "planet_star_conjunction":
